@@ -268,7 +268,7 @@ LOOP_UNROLL = 2
 
 # ------------------------------------------------------------------ interpreter
 class Interp:
-    def __init__(self, prog, budget=2000000):
+    def __init__(self, prog, budget=12000000):
         self.p = prog
         self.uid = 0
         self.exits = []        # abort/unreachable exits gathered during a root run
@@ -632,7 +632,7 @@ class Interp:
             pre = st.copy()
             nf = len(st.facts); ne = len(st.effects)
             outs = self.run_body(st, body, args, sub, site)
-            if len(outs) > 1 and all(len(s.effects) == ne and r[0] == 'c' for s, r in outs):
+            if len(outs) > 1 and all(len(s.effects) == ne for s, r in outs):
                 groups = {}
                 for s, r in outs: groups.setdefault(r, []).append(s)
                 merged = []
